@@ -212,6 +212,7 @@ structure CaseSt where
   lost : List (Unconf × Bool) := []     -- served in a page answer of a round that delivered nothing while the watcher carried on; not delivered since
   reobsFwd : List String := []          -- what re-observation requests of this life handed to the signer
   dipNote : String := ""                -- a count poll of this life answered lower than the next unfetched index (for the verdict texts)
+  tiNote : String := ""                 -- a token contract that had answered successfully answers differently now (for the verdict texts)
 
 structure St where
   c : CaseSt := {}
@@ -401,8 +402,33 @@ def alteredSpec (who : String) (a : List (Unconf × Option Event)) (note : Strin
        | none => none)
     | none => none
 
-/-- Spec on a delivered batch: nothing well-formed is lost, nothing with mismatching metadata is let through. -/
-def batchSpec (tbl : TiTable) (evs : List Event) (impl : List String) : Option String :=
+/-- symbol / name / decimals of an attestation payload, for verdict texts -/
+def infoText (t : TokenInfo) : String := s!"symbol {hexOrDash t.symbol} name {hexOrDash t.name} decimals {t.decimals}"
+
+def attestedText (m : Msg) : String :=
+  match parseAttest m.payload with
+  | some ti => infoText ti
+  | none => "an attestation payload that does not parse"
+
+def reportedText (tbl : TiTable) (m : Msg) : String :=
+  match parseAttest m.payload with
+  | some ti => (match getTokenInfo (tiOracle tbl) ti.tokenId with
+                | some t => infoText t
+                | none => "no usable answer (the metadata calls fail)")
+  | none => "-"
+
+/-- `wti`: which token contracts answered successfully before and answer something else now (for the verdict texts) -/
+def tiChanges (old new : TiTable) : List String :=
+  new.filterMap fun e =>
+    match getTokenInfo (tiOracle old) e.1, getTokenInfo (tiOracle new) e.1 with
+    | some a, some b => if a == b then none else some s!"token {toHex e.1} reported {infoText a} and reports {infoText b} now"
+    | some a, none => some s!"token {toHex e.1} reported {infoText a} and its metadata calls fail now"
+    | none, _ => none
+
+/-- Spec on a delivered batch: nothing well-formed is lost, nothing with mismatching metadata is let through.  Both halves are
+evaluated (the first is C08's, the second C09's): an attestation let through although the token contract reports something else
+must not hide, in the same page, one that equals what the contract reports and was dropped. -/
+def batchSpecs (tbl : TiTable) (evs : List Event) (impl : List String) : List String :=
   let ans := tiOracle tbl
   let lost := evs.find? fun e =>
     match acceptEv ans e with
@@ -413,16 +439,25 @@ def batchSpec (tbl : TiTable) (evs : List Event) (impl : List String) : Option S
     | some u => isAttest u.msg && !validateAttest ans u.msg && impl.contains (showUnconf u)
                 && !((handleUnconfirmed ans evs).map showUnconf).contains (showUnconf u)
     | none => false
-  match bad, lost with
-  | some e, _ => some s!"attest-mismatch-admitted event {e.id}: attested metadata differs from what the token contract reports"
-  | none, some e =>
-    let what := match e.conv with
-      | some m => if isAttest m then
-                    s!": an attestation of token {toHex ((m.payload.drop 1).take 32)} by sender {toHex m.sender} that equals what the token contract reports in this tick"
-                  else ""
-      | none => ""
-    some s!"wellformed-event-dropped event {e.id} (cl {(e.conv.map (·.cl)).getD 0}) converts and validates but was not delivered{what}"
-  | none, none => none
+  (match bad with
+   | some e =>
+     let what := match e.conv with
+       | some m => s!" (token {toHex ((m.payload.drop 1).take 32)}, attested {attestedText m}; the contract's answer in this tick: {reportedText tbl m})"
+       | none => ""
+     [s!"attest-mismatch-admitted event {e.id}: attested metadata differs from what the token contract reports{what}"]
+   | none => []) ++
+  (match lost with
+   | some e =>
+     let what := match e.conv with
+       | some m => if isAttest m then
+                     s!": an attestation of token {toHex ((m.payload.drop 1).take 32)} by sender {toHex m.sender} that equals what the token contract reports in this tick"
+                   else ""
+       | none => ""
+     [s!"wellformed-event-dropped event {e.id} (cl {(e.conv.map (·.cl)).getD 0}) converts and validates but was not delivered{what}"]
+   | none => [])
+
+/-- the first failing clause of a batch, as before (`attest-mismatch-admitted` first) -/
+def batchSpec (tbl : TiTable) (evs : List Event) (impl : List String) : Option String := (batchSpecs tbl evs impl).head?
 
 def doHunconf (st : St) (id : String) (fs : List String) : St × List String :=
   match (kv fs "ti").bind parseTi, (kv fs "evs").bind parseEvs, kv fs "reqs", kv fs "out", kv fs "res" with
@@ -433,12 +468,13 @@ def doHunconf (st : St) (id : String) (fs : List String) : St × List String :=
     let spec :=
       if res = "panic" then some (if lastIsTi reqs then "metadata-call-panic handleUnconfirmedEvents panicked inside the token metadata call" else "watcher-panic handleUnconfirmedEvents panicked")
       else if res = "err" then some "malformed-event-ends-watcher handleUnconfirmedEvents returned an error (sent to errC: the watcher ends and the page is lost)"
-      else batchSpec tbl evs impl
+      else none
+    let specs := if res = "ok" then batchSpecs tbl evs impl else []
     let mainnet := (kvB fs "mainnet").getD false
     let altered := if res = "ok" then alteredSpec s!"handleUnconfirmedEvents (Watcher with isMainnet = {mainnet})" (attributeTo evs (impl.filterMap parseUev)) "" else none
     let diff := if model ≠ impl then some s!"handleUnconfirmedEvents model={model} impl={impl}"
                 else if reqs ≠ tiReqsOfEvents tbl evs then some s!"handleUnconfirmedEvents requests model={tiReqsOfEvents tbl evs} impl={reqs}" else none
-    singleL st id (altered.toList ++ spec.toList) diff
+    singleL st id (altered.toList ++ spec.toList ++ specs) diff
   | _, _, _, _, _ => single st id none (some "unparsable hunconf line")
 
 /-- `_fetchHeight` while the poller is enabled: every polled height is passed on (changed or not), an error is reported. -/
@@ -534,7 +570,14 @@ def evalReobs (fs : List String) : ReobsEval :=
                 | some m, some h => some (s!"event {e.id} of the transaction (block timestamp {h.ts})", toPub tx m h)
                 | _, _ => none
               some s!"reobs-forwarded-altered forwarded {p}, which is not the message of any event of the transaction{describeAltered p all}{ctorNote fs}"
-            else some s!"{cl} forwarded {p}{if cl = "reobs-mainnet-transfer-floor" then s!" at {now} (the floor is max(cl, 205) x 16000 ms after the block timestamp)" ++ ctorNote fs else ""}"
+            else
+              let metaTxt := if cl ≠ "reobs-attest-mismatch" then "" else
+                match parsePub p with
+                | some pp =>
+                  let m : Msg := { sender := pp.emitter, targetChain := pp.targetChain, nonce := pp.nonce, seq := pp.seq, cl := pp.cl, payload := pp.payload }
+                  s!" (attested {attestedText m}; the token contract's answer in this call: {reportedText tbl m})"
+                | none => ""
+              some s!"{cl} forwarded {p}{if cl = "reobs-mainnet-transfer-floor" then s!" at {now} (the floor is max(cl, 205) x 16000 ms after the block timestamp)" ++ ctorNote fs else ""}{metaTxt}"
           | none =>
             let good := cands.filter fun c => c.all (·.2)
             if count p impl > good.length then some s!"reobs-forwarded-twice {p}" else none
@@ -649,7 +692,7 @@ def doWbatch (st : St) (fs : List String) : St × List String :=
     let c :=
       if res = "panic" then c.addSpec (if lastIsTi reqs then "metadata-call-panic handleUnconfirmedEvents panicked inside the token metadata call" else "watcher-panic handleUnconfirmedEvents panicked")
       else if res = "err" then c.addSpec "malformed-event-ends-watcher handleUnconfirmedEvents returned an error (sent to errC: the watcher ends and the page is lost)"
-      else match batchSpec c.ti evs impl with | some s => c.addSpec s | none => c
+      else (batchSpecs c.ti evs impl).foldl (fun c s => c.addSpec (s ++ c.tiNote)) c
     let attributed := attributeTo evs (impl.filterMap parseUev)
     let c := if res ≠ "ok" then c else match alteredSpec "handleUnconfirmedEvents (-> toUnconfirmedEvent)" attributed c.note with
              | some s => c.addSpec s | none => c
@@ -744,8 +787,8 @@ def doWtick (st : St) (fs : List String) : St × List String :=
         else if gap then
           c.addSpec s!"page-gap-or-overlap page requests do not continue at the previous nextStart: {nonTi}"
         else match implOut with
-          | some impl => if exit then c else (match batchSpec c.ti (pages.flatMap fun (_, p) => match p with | some pg => pg.events | none => []) impl with
-                          | some s => c.addSpec s | none => c)
+          | some impl => if exit then c else
+              (batchSpecs c.ti (pages.flatMap fun (_, p) => match p with | some pg => pg.events | none => []) impl).foldl (fun c s => c.addSpec (s ++ c.tiNote)) c
           | none => c
       -- comparison with the model
       -- a node API error excuses what is lost with a watcher that ENDS on it (the supervisor starts a new one, see `wrestart`);
@@ -956,7 +999,11 @@ def doWrestart (st : St) (fs : List String) : St × List String :=
 /-- `wti`: the token contracts answer differently from now on (same process, same client). -/
 def doWti (st : St) (fs : List String) : St × List String :=
   match (kv fs "ti").bind parseTi with
-  | some tbl => ({ st with c := { st.c with ti := tbl } }, [])
+  | some tbl =>
+    let ch := tiChanges st.c.ti tbl
+    let note := if ch.isEmpty then st.c.tiNote
+                else s!" [earlier in the life of this Watcher / Client the token contract answered its three getters successfully, later it began to answer differently: {"; ".intercalate ch}]"
+    ({ st with c := { st.c with ti := tbl, tiNote := note } }, [])
   | none => ({ st with c := st.c.addDiff "unparsable wti line" }, [])
 
 /-- `wreobs`: a re-observation request served by the life's own `handleObsvRequest` loop.  Judged like a `reobs` case; in
@@ -966,10 +1013,11 @@ def doWreobs (st : St) (fs : List String) : St × List String :=
   let c := st.c
   let r := evalReobs fs
   let c := match r.spec with
-    | some s => c.addSpec s
-    | none => match r.owed with
-      | some p => c.addSpec s!"reobs-wellformed-event-dropped {p} is the token bridge's message, final, in a canonical block and (attestation) equal to what the token contract reports in this call; every node request succeeded, yet the re-observation request did not hand it to the signer"
-      | none => c
+    | some s => c.addSpec (if (clauseOf s) == "reobs-attest-mismatch" then s ++ c.tiNote else s)
+    | none => c
+  let c := match r.owed with
+    | some p => c.addSpec s!"reobs-wellformed-event-dropped {p} is the token bridge's message, final, in a canonical block and (attestation) equal to what the token contract reports in this call; every node request succeeded, yet the re-observation request did not hand it to the signer{c.tiNote}"
+    | none => c
   let c := match r.requeued with | some s => c.addSpec s | none => c
   let c := match r.diff with | some d => c.addDiff d | none => c
   let c := { c with reobsFwd := c.reobsFwd ++ splitList ((kv fs "fwd").getD "-") "," }
